@@ -40,6 +40,8 @@ What is abstracted
     (the observable of the property is error / nil).
 -/
 import KinModel.Gen.Descent
+import KinModel.Gen.OptionCtors
+import KinModel.Gen.PatternCache
 namespace KinModel.DocValidate
 
 inductive Kind
@@ -88,7 +90,65 @@ structure Opts where
   patDisabled   : Bool := false        -- DisableSchemaPatternValidation
   extProhibited : Bool := false        -- ProhibitExtensionsWithRef
   allowed       : List String := []    -- AllowExtraSiblingFields
+  customRegex   : Bool := false        -- SetRegexCompiler with an engine that compiles every pattern of the family
   deriving DecidableEq, Repr
+
+/-! ## Option lists: `WithValidationOptions` folds the list left to right over the zero settings record -/
+
+/-- one element of an option list: constructor name and its arguments -/
+abbrev OptCall := String × List String
+
+/-- write `value` to the field `field` of the settings record (the vocabulary of table `OptionCtors`) -/
+def setField (o : Opts) (field value : String) (args : List String) : Opts :=
+  match field, value with
+  | "examplesValidationDisabled", "true" => { o with exDisabled := true }
+  | "examplesValidationDisabled", "false" => { o with exDisabled := false }
+  | "schemaDefaultsValidationDisabled", "true" => { o with defDisabled := true }
+  | "schemaDefaultsValidationDisabled", "false" => { o with defDisabled := false }
+  | "schemaFormatValidationEnabled", "true" => { o with fmtEnabled := true }
+  | "schemaFormatValidationEnabled", "false" => { o with fmtEnabled := false }
+  | "schemaPatternValidationDisabled", "true" => { o with patDisabled := true }
+  | "schemaPatternValidationDisabled", "false" => { o with patDisabled := false }
+  | "schemaExtensionsInRefProhibited", "true" => { o with extProhibited := true }
+  | "schemaExtensionsInRefProhibited", "false" => { o with extProhibited := false }
+  | "extraSiblingFieldsAllowed", "add-args" => { o with allowed := o.allowed ++ args }
+  | "regexCompilerFunc", "arg" => { o with customRegex := args == ["permissive"] }
+  | _, _ => o
+
+/-- the (field, value) pair is one `setField` understands -/
+def fieldKnown (field value : String) : Bool :=
+  (["examplesValidationDisabled", "schemaDefaultsValidationDisabled", "schemaFormatValidationEnabled",
+    "schemaPatternValidationDisabled", "schemaExtensionsInRefProhibited"].contains field && (value = "true" || value = "false")) ||
+  (field = "extraSiblingFieldsAllowed" && value = "add-args") || (field = "regexCompilerFunc" && value = "arg")
+
+/-- apply one option of the list: look the constructor up in the table, write its field -/
+def stepWith (rows : List Gen.OptionCtorRow) (o : Opts) (c : OptCall) : Opts :=
+  match rows.find? (fun r => r.name = c.1) with
+  | some r => setField o r.field r.value c.2
+  | none => o
+
+/-- the settings a list of options produces -/
+def optsOf (rows : List Gen.OptionCtorRow) (l : List OptCall) : Opts := l.foldl (stepWith rows) {}
+
+/-- the constructors as their names and documentation say (specification side): `Disable<Check>` switches the
+check off, `Enable<Check>` switches it on, `Prohibit…` / `Allow…WithRef` set / clear the `x-` sibling rule,
+`AllowExtraSiblingFields` adds names to the allow-list, `SetRegexCompiler` replaces the regular-expression engine -/
+def specOptionRows : List Gen.OptionCtorRow := [
+  ⟨"AllowExtensionsWithRef", "schemaExtensionsInRefProhibited", "false"⟩,
+  ⟨"AllowExtraSiblingFields", "extraSiblingFieldsAllowed", "add-args"⟩,
+  ⟨"DisableExamplesValidation", "examplesValidationDisabled", "true"⟩,
+  ⟨"DisableSchemaDefaultsValidation", "schemaDefaultsValidationDisabled", "true"⟩,
+  ⟨"DisableSchemaFormatValidation", "schemaFormatValidationEnabled", "false"⟩,
+  ⟨"DisableSchemaPatternValidation", "schemaPatternValidationDisabled", "true"⟩,
+  ⟨"EnableExamplesValidation", "examplesValidationDisabled", "false"⟩,
+  ⟨"EnableSchemaDefaultsValidation", "schemaDefaultsValidationDisabled", "false"⟩,
+  ⟨"EnableSchemaFormatValidation", "schemaFormatValidationEnabled", "true"⟩,
+  ⟨"EnableSchemaPatternValidation", "schemaPatternValidationDisabled", "false"⟩,
+  ⟨"ProhibitExtensionsWithRef", "schemaExtensionsInRefProhibited", "true"⟩,
+  ⟨"SetRegexCompiler", "regexCompilerFunc", "arg"⟩]
+
+/-- the settings the property assigns to an option list (left fold, the last writer of a check wins) -/
+def specOptsOf (l : List OptCall) : Opts := optsOf specOptionRows l
 
 /-! ## The generic descent and its characterisation -/
 
@@ -208,6 +268,7 @@ inductive Item
   | edge (k : Kind) (pos : String) (guards : List String)
   | check (k : Kind) (name : String) (guards : List String)
   | swallow (k : Kind) (name : String) (guards : List String)   -- a child call / check whose error ends in `return nil`
+  | ignored (k : Kind) (name : String) (guards : List String)   -- a child call / check whose error is dropped (`continue`)
   | skip                                       -- a recognised row that carries no edge (identity steps)
   deriving DecidableEq, Repr
 
@@ -243,7 +304,8 @@ def posOfVia : String → Option String
   | "components.Callbacks[]" => some "callbacks"
   | "info.Contact" => some "contact" | "info.License" => some "license"
   | "paths.Value()" => some "pathItems" | "pathItem.Operations()[]" => some "operations"
-  | "pathItem.Parameters" => some "parameters"
+  | "pathItem.Parameters" => some "parameters" | "pathItem.Servers" => some "servers"
+  | "operation.Servers" => some "servers"
   | "operation.Parameters" => some "parameters" | "operation.RequestBody" => some "requestBody"
   | "operation.Responses" => some "responses" | "operation.ExternalDocs" => some "externalDocs"
   | "parameters[]" => some "items"
@@ -328,6 +390,12 @@ def interp (r0 : DescentRow) : Option (List Item) :=
        else match kindOfGo r.dst, posOfVia r.via with
          | some _, some p => some [.swallow k p r.guards]
          | _, _ => none)
+    else if r.onErr = "ignore" then
+      -- the error of the callee is dropped and the method goes on: the call has no effect on the verdict
+      (if r.dst = "<ValidateIdentifier>" then (identPosOfVia r.via).map (fun p => [.ignored k ("identifier:" ++ p) r.guards])
+       else match kindOfGo r.dst, posOfVia r.via with
+         | some _, some p => some [.ignored k p r.guards]
+         | _, _ => none)
     else if r.onErr != "propagate" then none
     else if r.dst = "<validateExtensions>" then some [.check k "extensions" r.guards]
     else if r.dst = "<ValidateIdentifier>" then (identPosOfVia r.via).map (fun p => [.check k ("identifier:" ++ p) r.guards])
@@ -346,6 +414,9 @@ structure Table where
   edges  : List (Kind × String × List String)
   checks : List (Kind × String × List String)
   swallows : List (Kind × String × List String)
+  ignored : List (Kind × String × List String)
+  cacheRead : Bool := false    -- document validation consults the process-wide cache of compiled patterns
+  cacheWrite : Bool := false   -- … or puts entries into it
   deriving DecidableEq, Repr
 
 def itemsOf (rows : List Gen.DescentRow) : List Item := (rows.filterMap interp).flatten
@@ -353,10 +424,23 @@ def itemsOf (rows : List Gen.DescentRow) : List Item := (rows.filterMap interp).
 def tableOf (rows : List Gen.DescentRow) : Table :=
   { edges := (itemsOf rows).filterMap (fun | .edge k p g => some (k, p, g) | _ => none),
     checks := (itemsOf rows).filterMap (fun | .check k n g => some (k, n, g) | _ => none),
-    swallows := (itemsOf rows).filterMap (fun | .swallow k n g => some (k, n, g) | _ => none) }
+    swallows := (itemsOf rows).filterMap (fun | .swallow k n g => some (k, n, g) | _ => none),
+    ignored := (itemsOf rows).filterMap (fun | .ignored k n g => some (k, n, g) | _ => none) }
+
+/-- uses of the process-wide pattern cache (table `PatternCache`): a use outside `Schema.visitJSONString` (value
+validation, C01) that can observe an entry; a use that can create one (`CompareAndSwap` with old = nil cannot) -/
+def cacheOpKnown (op : String) : Bool :=
+  ["Load", "Store", "LoadOrStore", "LoadAndDelete", "Delete", "Swap", "CompareAndSwap", "CompareAndDelete", "Range"].contains op
+def cacheReads (rows : List Gen.PatternCacheRow) : Bool :=
+  rows.any (fun r => r.fn != "Schema.visitJSONString" &&
+    (!cacheOpKnown r.op || ["Load", "LoadOrStore", "LoadAndDelete", "Swap", "CompareAndDelete", "Range"].contains r.op))
+def cacheWrites (rows : List Gen.PatternCacheRow) : Bool :=
+  rows.any (fun r => !cacheOpKnown r.op || ["Store", "LoadOrStore", "Swap"].contains r.op ||
+    (r.op = "CompareAndSwap" && r.detail != "old=nil"))
 
 /-- the table of the code under test -/
-def codeTable : Table := tableOf Gen.descent
+def codeTable : Table :=
+  { tableOf Gen.descent with cacheRead := cacheReads Gen.patternCache, cacheWrite := cacheWrites Gen.patternCache }
 
 def litHolds (o : Opts) (a : Attrs) : String → Bool
   | "+examplesValidationDisabled" => o.exDisabled
@@ -614,8 +698,9 @@ def encSmOf (a : Attrs) : String × Bool :=
 /-- the style / explode combinations `Encoding.Validate` supports: those of a query parameter -/
 def encodingStyleOK (a : Attrs) : Bool := smSupported "query" (encSmOf a).1 (encSmOf a).2
 
-/-- `Encoding.Validate`, loop over the headers: a header whose key is not an identifier, or whose own
-validation fails, makes the method answer nil at once (the table says which of the two errors are dropped) -/
+/-- `Encoding.Validate`, loop over the headers, for the rows the table marks as `swallow` (none since 7cd29a9:
+the identifier error is returned, a failing header is skipped by `continue`): a header whose key is not an
+identifier, or whose own validation fails, would make the method answer nil at once -/
 def encHeadersBad (T : Table) (o : Opts) (d : Doc) (vs : List Bool) : Bool :=
   (d.kids.zip vs).any (fun pv => pv.1.1 = "headers" &&
     ((hasSwallow T o d.attrs .encoding "identifier:headers" && !identOK (keyOf pv.1.2)) ||
@@ -623,6 +708,7 @@ def encHeadersBad (T : Table) (o : Opts) (d : Doc) (vs : List Bool) : Bool :=
 
 def encodingOKCode (T : Table) (o : Opts) (d : Doc) (vs : List Bool) : Bool :=
   if encHeadersBad T o d vs then true
+  else if hasCheck T o d.attrs .encoding "identifier:headers" && !(d.kidsAt "headers").all (fun h => identOK (keyOf h)) then false
   else if !encodingStyleOK d.attrs then false
   else checkExt T o d
 
@@ -638,13 +724,23 @@ def formatKnown (ty fmt : String) : Bool :=
     | "integer" => fmt = "int32" || fmt = "int64"
     | "string" => stringFormats.contains fmt
     | _ => true
-/-- the fixed family of patterns that do not compile (the regular-expression engine is a parameter) -/
+/-- the fixed family of patterns that Go's engine does not compile (the regular-expression engine is a
+parameter): one of five stems followed by lower-case letters and digits -/
 def badPatterns : List String := ["(", "[a", "a{2,1}", "(?!a)", "*a"]
+def lowerAlnum (c : Char) : Bool := ('a' ≤ c && c ≤ 'z') || ('0' ≤ c && c ≤ '9')
+def uncompilable (p : String) : Bool :=
+  badPatterns.any (fun b => isPrefix b.toList p.toList && (p.toList.drop b.toList.length).all lowerAlnum)
 
-def schemaTypeOKCode (o : Opts) (a : Attrs) (hasItems : Bool) (ty : String) : Bool :=
+/-- does the pattern compile in this call? `cache`: the content of the process-wide cache of compiled patterns
+when the call starts (the part of the process history the call could see) — consulted only if the table says
+document validation reads it -/
+def patCompiles (T : Table) (cache : List String) (o : Opts) (p : String) : Bool :=
+  (T.cacheRead && cache.contains p) || o.customRegex || !uncompilable p
+
+def schemaTypeOKCode (pc : String → Bool) (o : Opts) (a : Attrs) (hasItems : Bool) (ty : String) : Bool :=
   if !knownTypes.contains ty then false
   else if (ty = "number" || ty = "integer" || ty = "string") && o.fmtEnabled && !formatKnown ty (a.str "format") then false
-  else if ty = "string" && !o.patDisabled && a.str "pattern" != "" && badPatterns.contains (a.str "pattern") then false
+  else if ty = "string" && !o.patDisabled && a.str "pattern" != "" && !pc (a.str "pattern") then false
   else if ty = "array" && !hasItems then false
   else true
 
@@ -653,10 +749,10 @@ def schemaExamplesOK (a : Attrs) : Bool := (a.vals.filter (·.1 = "example")).al
 
 def innerPositions : List String := ["oneOf", "anyOf", "allOf", "not", "items", "properties", "additionalProperties"]
 
-def schemaOKCode (T : Table) (o : Opts) (d : Doc) : Bool :=
+def schemaOKCode (pc : String → Bool) (T : Table) (o : Opts) (d : Doc) : Bool :=
   let a := d.attrs
   if a.flag "readOnly" && a.flag "writeOnly" then false
-  else if !((a.list "type").all (schemaTypeOKCode o a (d.hasKid "items"))) then false
+  else if !((a.list "type").all (schemaTypeOKCode pc o a (d.hasKid "items"))) then false
   else if hasCheck T o a .schema "default" && !schemaDefaultsOK a then false
   else if hasCheck T o a .schema "example" && !schemaExamplesOK a then false
   else checkExt T o d
@@ -716,8 +812,8 @@ def componentsOKCode (T : Table) (o : Opts) (d : Doc) : Bool :=
     if hasCheck T o d.attrs .components ("identifier:" ++ p) then (d.kidsAt p).all (fun c => identOK (keyOf c)) else true) &&
   checkExt T o d
 
-/-- the local checks of each `Validate` method, in the code's order -/
-def localOK (T : Table) (o : Opts) (d : Doc) (vs : List Bool) : Bool :=
+/-- the local checks of each `Validate` method, in the code's order (`pc`: does a pattern compile) -/
+def localOKp (pc : String → Bool) (T : Table) (o : Opts) (d : Doc) (vs : List Bool) : Bool :=
   let a := d.attrs
   match d.kind with
   | .root => if a.str "openapi" = "" then false else if !d.hasKid "info" then false
@@ -743,7 +839,7 @@ def localOK (T : Table) (o : Opts) (d : Doc) (vs : List Bool) : Bool :=
   | .requestBody => if !a.flag "hasContent" then false else checkExt T o d
   | .responses => if a.num "count" == 0 then false else checkExt T o d
   | .response => if !a.flag "hasDescription" then false else checkExt T o d
-  | .schema => schemaOKCode T o d
+  | .schema => schemaOKCode pc T o d
   | .example => if hasVal a && a.str "externalValue" != "" then false
                 else if !hasVal a && a.str "externalValue" = "" then false else checkExt T o d
   | .link => if a.str "operationId" = "" && a.str "operationRef" = "" then false
@@ -759,8 +855,34 @@ def localOK (T : Table) (o : Opts) (d : Doc) (vs : List Bool) : Bool :=
   | .encoding => encodingOKCode T o d vs
   | .contact | .pathItem | .callback | .oauthFlows | .discriminator | .xml => checkExt T o d
 
+/-- the local checks in a process whose pattern cache is empty -/
+def localOK (T : Table) (o : Opts) (d : Doc) (vs : List Bool) : Bool := localOKp (patCompiles T [] o) T o d vs
+
 /-- model of `(*T).Validate` with the given options -/
 def validate (T : Table) (o : Opts) (d : Doc) : Bool := descend (localOK T o) (active T o) d
+
+/-- model of `(*T).Validate` called in a process whose pattern cache holds `cache` -/
+def validateIn (T : Table) (cache : List String) (o : Opts) (d : Doc) : Bool :=
+  descend (localOKp (patCompiles T cache o) T o) (active T o) d
+
+mutual
+/-- the patterns of the string schemas of a document -/
+def docPatterns : Doc → List String
+  | .node k a kids =>
+    (if k = .schema && (a.list "type").contains "string" && a.str "pattern" != "" then [a.str "pattern"] else []) ++ kidsPatterns kids
+def kidsPatterns : List (String × Doc) → List String
+  | [] => []
+  | (_, c) :: r => docPatterns c ++ kidsPatterns r
+end
+
+/-- the cache after the call (only if the table says document validation writes it) -/
+def cacheAfter (T : Table) (cache : List String) (o : Opts) (d : Doc) : List String :=
+  if T.cacheWrite && !o.patDisabled then cache ++ (docPatterns d).filter (patCompiles T cache o) else cache
+
+/-- a sequence of `Validate` calls in one process, starting from `cache`: their verdicts -/
+def runSeq (T : Table) : List (Opts × Doc) → List String → List Bool
+  | [], _ => []
+  | (o, d) :: r, cache => validateIn T cache o d :: runSeq T r (cacheAfter T cache o d)
 
 /-- the local checks of a node, fed with the model's verdicts of its kids -/
 def localOKV (T : Table) (o : Opts) (d : Doc) : Bool := lokV (localOK T o) (active T o) d
@@ -781,7 +903,7 @@ def enabled (o : Opts) (v : Viol) : Bool :=
   | "exampleMismatch" => !o.exDisabled
   | "defaultMismatch" => !o.defDisabled
   | "unknownFormat" => o.fmtEnabled
-  | "badPattern" => !o.patDisabled
+  | "badPattern" => !o.patDisabled && !o.customRegex
   | _ => true
 
 def when (b : Bool) (r : String) (key : String := "") : List Viol := if b then [⟨r, key⟩] else []
@@ -810,7 +932,7 @@ def exampleViols (d : Doc) : List Viol :=
 def schemaTypeViols (a : Attrs) (hasItems : Bool) (ty : String) : List Viol :=
   when (!knownTypes.contains ty) "unknownType" ty ++
   when (knownTypes.contains ty && (ty = "number" || ty = "integer" || ty = "string") && !formatKnown ty (a.str "format")) "unknownFormat" ++
-  when (ty = "string" && a.str "pattern" != "" && badPatterns.contains (a.str "pattern")) "badPattern" ++
+  when (ty = "string" && a.str "pattern" != "" && uncompilable (a.str "pattern")) "badPattern" ++
   when (ty = "array" && !hasItems) "arrayNoItems"
 
 /-- Security Scheme Object (OpenAPI 3.0.3 §4.7.27): `type` is one of four; `name` and `in` are required for
@@ -913,7 +1035,8 @@ def violations (d : Doc) : List Viol :=
   | .tag => when (a.flag "null") "nullEntry" ++ extraViols a
   | .externalDocs => when (a.str "url" = "") "missingUrl" ++ extraViols a
   | .content | .securityReqs | .securityReq | .servers | .tags => []
-  | .encoding => when (!encodingStyleOK a) "badStyle" ++ extraViols a
+  | .encoding => when (!(d.kidsAt "headers").all (fun h => identOK (keyOf h))) "badHeaderName" ++
+      when (!encodingStyleOK a) "badStyle" ++ extraViols a
   | .contact | .pathItem | .callback | .oauthFlows | .discriminator | .xml => extraViols a
 
 /-- the node satisfies every rule that is in force -/
@@ -973,30 +1096,23 @@ def excl7Node (d : Doc) : Bool :=
 follows `ref.Value` directly and never runs the reference wrapper's own check -/
 def exclInnerNode (o : Opts) (d : Doc) : Bool := d.kind = .innerSchemaRef && !refSibsOK o d.attrs
 
-/-- an encoding object one of whose headers fails (`Encoding.Validate` then answers nil: neither the header's
-violation nor the encoding object's own style / extra-field violations are reported) -/
-def exclEncNode (T : Table) (o : Opts) (d : Doc) : Bool :=
-  d.kind = .encoding && encHeadersBad T o d (verdicts (localOK T o) (active T o) d.kids)
-
 /-- containment edges of the property for which the table has no unconditional edge -/
 def uncovered (T : Table) : List (Kind × String) :=
   specEdges.filter (fun e => !((rowsFor T.edges e.1 e.2).contains []))
 
-/-- the containment edges along which the code is known not to report violations: the `servers` of a path item
-and of an operation (never validated), the headers of an encoding object (errors dropped), and #28: `xml`,
-`discriminator` objects are never validated -/
-def knownUncovered : List (Kind × String) :=
-  [(.pathItem, "servers"), (.operation, "servers"), (.encoding, "headers"), (.schema, "xml"), (.schema, "discriminator")]
+/-- the containment edges along which the code is known not to report violations: the headers of an encoding
+object (validated, but the error is dropped by `continue`), and #28: `xml`, `discriminator` objects are never
+validated -/
+def knownUncovered : List (Kind × String) := [(.encoding, "headers"), (.schema, "xml"), (.schema, "discriminator")]
 
 /-- a violation sits below a containment edge in `unc` -/
 def exclBelow (unc : List (Kind × String)) (o : Opts) (d : Doc) : Bool :=
   d.kids.any (fun pc => unc.contains (d.kind, pc.1) && !specCleanB o pc.2)
 
 /-- local deviations: at such a node the code's local checks are weaker than the rules -/
-def exclLocal (T : Table) (o : Opts) (d : Doc) : Bool :=
-  excl7Node d || exclInnerNode o d || exclEncNode T o d
+def exclLocal (o : Opts) (d : Doc) : Bool := excl7Node d || exclInnerNode o d
 
-def exclNode (T : Table) (unc : List (Kind × String)) (o : Opts) (d : Doc) : Bool := exclLocal T o d || exclBelow unc o d
+def exclNode (unc : List (Kind × String)) (o : Opts) (d : Doc) : Bool := exclLocal o d || exclBelow unc o d
 
 /-- some node of the document satisfies `f` -/
 def anyNode (f : Doc → Bool) (d : Doc) : Bool := !descend (plain (fun n => !f n)) allAct d
